@@ -34,9 +34,9 @@ Qed.
 Lemma w_import_documented w : importer_documented str (w_import w).
 Proof.
   intros s e. unfold w_import. destruct s as [|c s].
-  - intros H. right. left. split; congruence.
+  - intros H. right. right. left. split; congruence.
   - destruct (str_startswith (c :: s) [DOT]) eqn:E.
-    + intros H. right. right. split; congruence.
+    + intros H. right. right. right. split; congruence.
     + destruct (module_exists w (c :: s)); [discriminate|]. intros H. left. congruence.
 Qed.
 Lemma w_getattr_documented w : getattr_documented str cls (w_getattr w).
@@ -65,7 +65,7 @@ Lemma spec_registry_inv (Mo C D : Type) fm at_ ic ds (reg : C -> option D) tag c
   resolve_spec Mo C D fm at_ ic ds reg tag = RByRegistry c d -> reg c = Some d.
 Proof.
   unfold resolve_spec. destruct tag as [t|]; [|discriminate].
-  destruct (falsy t); [discriminate|]. destruct t; try discriminate.
+  destruct (is_null t); [discriminate|]. destruct t; try discriminate.
   destruct (split_last_dot s) as [[m n]|]; [|discriminate].
   destruct (negb (module_part_ok m)); [discriminate|].
   destruct (owner_of Mo C fm at_ ic m) as [o|]; [|discriminate].
@@ -133,38 +133,35 @@ Section Proofs.
   Definition ok (v : value P) : Prop := in_grammar v = true /\ Forall (fun c => cls_ok w c = true) (objects v).
 
   Lemma to_json_ser c own kids kj :
-    c_kind c = KSer -> c_base c = None -> is_local c = false -> sequence (map to_json kids) = Return kj ->
+    c_kind c = KSer -> is_local c = false -> sequence (map to_json kids) = Return kj ->
     to_json (VObj c own kids) = Return (JObj ((JSON_TYPE_NAME, JStr (full_name c)) :: ufields c own kj)).
   Proof.
-    intros Ek Hb Hl Hkj.
+    intros Ek Hl Hkj.
     assert (Hd : dispatch P (VObj c own kids) = Return TJ_CallMethod).
-    { unfold dispatch, to_json_dispatch. simpl. rewrite Hb, Ek. reflexivity. }
+    { unfold dispatch, to_json_dispatch. simpl. rewrite Ek. reflexivity. }
     simpl. rewrite Hd, (base_to_json_not_local c Hl), Hkj. reflexivity.
   Qed.
 
   Lemma to_json_ser_local c own kids :
-    c_kind c = KSer -> c_base c = None -> is_local c = true -> to_json (VObj c own kids) = RaiseJ ClassNotSerializableError.
+    c_kind c = KSer -> is_local c = true -> to_json (VObj c own kids) = RaiseJ ClassNotSerializableError.
   Proof.
-    intros Ek Hb Hl.
+    intros Ek Hl.
     assert (Hd : dispatch P (VObj c own kids) = Return TJ_CallMethod).
-    { unfold dispatch, to_json_dispatch. simpl. rewrite Hb, Ek. reflexivity. }
+    { unfold dispatch, to_json_dispatch. simpl. rewrite Ek. reflexivity. }
     simpl. rewrite Hd, (base_to_json_local c Hl). reflexivity.
   Qed.
 
   Lemma to_json_reg c own :
-    c_kind c = KReg -> c_base c = None -> to_json (VObj c own []) = Return (JObj (rser c own)).
+    c_kind c = KReg -> to_json (VObj c own []) = Return (JObj (rser c own)).
   Proof.
-    intros Ek Hb.
+    intros Ek.
     assert (Hd : dispatch P (VObj c own []) = Return (TJ_CallSer c)).
-    { unfold dispatch, to_json_dispatch. simpl. rewrite Hb, Ek. reflexivity. }
+    { unfold dispatch, to_json_dispatch. simpl. rewrite Ek. reflexivity. }
     simpl. rewrite Hd. reflexivity.
   Qed.
 
-  Lemma cls_ok_parts c : cls_ok w c = true -> is_local c = false /\ c_base c = None /\ names_itself w c = true.
-  Proof.
-    unfold cls_ok, no_builtin_base. rewrite !andb_true_iff, negb_true_iff. intros [[H1 H2] H3].
-    destruct (c_base c); [discriminate|]. auto.
-  Qed.
+  Lemma cls_ok_parts c : cls_ok w c = true -> is_local c = false /\ names_itself w c = true.
+  Proof. unfold cls_ok. rewrite andb_true_iff, negb_true_iff. tauto. Qed.
 
   Lemma ok_list l : in_grammar (VList l) = true -> Forall (fun c => cls_ok w c = true) (objects (VList l)) -> Forall ok l.
   Proof.
@@ -215,7 +212,7 @@ Section Proofs.
           apply andb_true_iff in Hg as [Hx Hl]. apply Forall_app in Hos as [Ho1 Ho2].
           constructor; [split; assumption | apply IHl; assumption]. }
         destruct (rt_list kids (Forall_impl2 (fun x => ok x -> rt x) ok rt kids (fun x HQ HR => HQ HR) IH Hok)) as [kj [Hkj Hfk]].
-        destruct (cls_ok_parts c Hc) as [Hnl [Hnb Hni]].
+        destruct (cls_ok_parts c Hc) as [Hnl Hni].
         exists (JObj ((JSON_TYPE_NAME, JStr (full_name c)) :: ufields c own kj)). split.
         * apply to_json_ser; assumption.
         * intros [|n] H; [simpl in H; lia|].
@@ -229,7 +226,7 @@ Section Proofs.
       + (* registered type *)
         destruct kids as [|k ks]; [|discriminate].
         destruct (Hreg c own Ek) as [Hrd Htag].
-        destruct (cls_ok_parts c Hc) as [Hnl [Hnb Hni]].
+        destruct (cls_ok_parts c Hc) as [Hnl Hni].
         exists (JObj (rser c own)). split.
         * apply to_json_reg; assumption.
         * intros [|n] H; [simpl in H; lia|].
@@ -252,7 +249,7 @@ Section Proofs.
     exists d, to_json (VObj c own kids) = Return (JObj d) /\ dict_get d JSON_TYPE_NAME = Some (JStr (qualified_tag c)).
   Proof.
     intros Hok. pose proof Hok as [Hg Ho]. simpl in Hg, Ho. inversion Ho as [|c0 os Hc Hos]; subst.
-    destruct (cls_ok_parts c Hc) as [Hnl [Hnb Hni]].
+    destruct (cls_ok_parts c Hc) as [Hnl Hni].
     destruct (c_kind c) eqn:Ek; [| |discriminate].
     - assert (Hokk : Forall ok kids).
       { clear - Hg Hos. induction kids as [|x l IHl]; simpl in *; [constructor|].
@@ -272,9 +269,9 @@ Section Proofs.
 
   (* outside F: an instance of a function-local serialiser class is refused when it is serialised *)
   Lemma local_class_refused c own kids fuel :
-    c_kind c = KSer -> c_base c = None -> is_local c = true ->
+    c_kind c = KSer -> is_local c = true ->
     round_trip P ufields usplit rser rdeser as_leaf as_items w fuel (VObj c own kids) = Some (RaiseJ ClassNotSerializableError).
-  Proof. intros Ek Hb Hl. unfold round_trip. rewrite (to_json_ser_local c own kids Ek Hb Hl). reflexivity. Qed.
+  Proof. intros Ek Hl. unfold round_trip. rewrite (to_json_ser_local c own kids Ek Hl). reflexivity. Qed.
 End Proofs.
 
 (* ---- the sample user code of the correspondence harness meets the hypotheses *)
@@ -402,7 +399,7 @@ Section SampleTags.
       unfold expected_tags. simpl objects. rewrite map_flat_map. reflexivity.
     - (* object *)
       pose proof Hok as [Hg Ho]. simpl in Hg, Ho. inversion Ho as [|c0 os Hc Hos]; subst.
-      destruct (cls_ok_parts w c Hc) as [Hnl [Hnb Hni]].
+      destruct (cls_ok_parts w c Hc) as [Hnl Hni].
       simpl in Hp. apply andb_true_iff in Hp as [Hpo Hpk].
       pose proof (jv_plain_no_tags own Hpo) as Hown.
       unfold expected_tags. simpl objects. simpl map. rewrite map_flat_map.
@@ -413,12 +410,12 @@ Section SampleTags.
         { eapply Forall_impl; [|exact Hokk].
           apply (round_trip_value jv s_ufields s_usplit s_rser s_rdeser s_as_leaf s_as_items sample_user_round_trip sample_registered_round_trip w). }
         destruct (rt_list jv s_ufields s_usplit s_rser s_rdeser s_as_leaf s_as_items w kids Hrt) as [kj [Es _]].
-        rewrite (to_json_ser jv s_ufields s_rser s_as_leaf s_as_items c own kids kj Ek Hnb Hnl Es) in Hj. injection Hj as <-.
+        rewrite (to_json_ser jv s_ufields s_rser s_as_leaf s_as_items c own kids kj Ek Hnl Es) in Hj. injection Hj as <-.
         pose proof (tags_list kids IH Hokk Hpk kj Es) as Hk.
         unfold s_ufields. destruct (Z.even (c_id c)); simpl; rewrite ?str_eqb_refl; simpl;
           rewrite Hown, ?app_nil_r; simpl; rewrite Hk; reflexivity.
       + destruct kids as [|k ks]; [|discriminate].
-        rewrite (to_json_reg jv s_ufields s_rser s_as_leaf s_as_items c own Ek Hnb) in Hj. injection Hj as <-.
+        rewrite (to_json_reg jv s_ufields s_rser s_as_leaf s_as_items c own Ek) in Hj. injection Hj as <-.
         unfold s_rser. simpl. rewrite ?str_eqb_refl. simpl. rewrite Hown. reflexivity.
   Qed.
 
@@ -640,8 +637,7 @@ Section Fragment.
       simpl app. match goal with |- context [join_dots (_ :: ?X)] => destruct X as [|y ys] end;
         [exists h | exists (h ++ 46 :: join_dots (y :: ys))]; reflexivity. }
     destruct Hhead as [tl Htl].
-    assert (Hf : falsy (JStr (join_dots names0 ++ 46 :: n)) = false) by (rewrite Htl; reflexivity).
-    rewrite Hf, split_last_dot_rsplit1, (rsplit1_app 46 _ _ Hn).
+    simpl is_null. cbv iota. rewrite split_last_dot_rsplit1, (rsplit1_app 46 _ _ Hn).
     assert (Hmp : module_part_ok (join_dots names0) = true).
     { rewrite Htl. unfold module_part_ok. apply negb_true_iff, Z.eqb_neq. exact Hc0. }
     rewrite Hmp. simpl negb. cbv iota.
@@ -660,24 +656,26 @@ End Fragment.
 Theorem named_classes_are_ok w c :
   unique_names w -> In c w -> module_part_ok (c_mod c) = true -> dot_free (c_qual c) -> c_qual c <> [] ->
   enclosing_classes_defined w c -> no_module_named_like_class_path w c ->
-  c_kind c <> KPlain -> is_local c = false -> c_base c = None -> cls_ok w c = true.
+  c_kind c <> KPlain -> is_local c = false -> cls_ok w c = true.
 Proof.
-  intros Hu Hin Hm Hd Hne He Hn Hk Hl Hb.
+  intros Hu Hin Hm Hd Hne He Hn Hk Hl.
   destruct (exists_last Hne) as [pre [n Hq]].
-  unfold cls_ok, no_builtin_base. rewrite Hl, Hb. simpl. eapply own_tag_resolves; eauto.
+  unfold cls_ok. rewrite Hl. simpl. eapply own_tag_resolves; eauto.
 Qed.
 
-(* ---- outside F: classes that also derive from a builtin type (finding C18-d).  The leaf / list tests of to_json come
-   before the SubclassJSONSerializer / registry tests, so such an object is handed to json as the builtin value it also is *)
+(* ---- regression examples for the former finding C18-d (fixed by 8efc58f): classes that also derive from a builtin type.
+   The leaf / list tests of to_json used to come first, so such an object was written as the builtin value it also is;
+   now the object's own / registered serialiser is asked first and it round-trips *)
 Definition c_status : cls := {| c_mod := S_MOD; c_qual := [[83]]; c_kind := KReg; c_id := 20; c_base := Some Tint |}.    (* m.S(int), registered *)
 Definition c_traj : cls := {| c_mod := S_MOD; c_qual := [[84]]; c_kind := KSer; c_id := 22; c_base := Some Tlist |}.    (* m.T(list, SubclassJSONSerializer) *)
 Definition w_base : world := [c_status; c_traj].
-Lemma builtin_base_loses_class :
-  in_grammar (VObj c_status (JInt 404) [] : value jv) = true /\
-  round_trip jv s_ufields s_usplit s_rser s_rdeser s_as_leaf s_as_items w_base 5 (VObj c_status (JInt 404) []) = Some (Return (VInt 404)) /\
-  in_grammar (VObj c_traj JNull [VInt 1; VInt 2] : value jv) = true /\
+Lemma builtin_base_round_trips :
+  value_ok w_base (VObj c_status (JInt 404) [] : value jv) = true /\
+  round_trip jv s_ufields s_usplit s_rser s_rdeser s_as_leaf s_as_items w_base 5 (VObj c_status (JInt 404) [])
+  = Some (Return (VObj c_status (JInt 404) [])) /\
+  value_ok w_base (VObj c_traj JNull [VInt 1; VInt 2] : value jv) = true /\
   round_trip jv s_ufields s_usplit s_rser s_rdeser s_as_leaf s_as_items w_base 5 (VObj c_traj JNull [VInt 1; VInt 2])
-  = Some (Return (VList [VInt 1; VInt 2])).
+  = Some (Return (VObj c_traj JNull [VInt 1; VInt 2])).
 Proof. repeat split; vm_compute; reflexivity. Qed.
 
 (* ---- outside F: a class that is not bound under its qualified name in its module (finding C18-c): C types such as
